@@ -719,6 +719,11 @@ class CGen:
                     ti.append("  if (ti == (const void*)&%s) return (const void*)&%s;" % (self.gname(gn), self.gname("_ZTI" + par)))
         ti.append("  return 0; }")
         out.extend(ti)
+        wk = [n for n in funcs if n.endswith("TaskScheduler21TaskingThreadFunctionEPv") and n in m.funcs and not m.funcs[n].is_decl]
+        if wk:
+            out.append("#define VP_CALL_WORKER(arg) ((void)%s((u8*)(arg)))" % self.gname(wk[0]))
+        else:
+            out.append("#define VP_CALL_WORKER(arg) ((void)0)")
         out.append('#include "models.c"')
         for ct, sz in sorted(self.new_helpers.items()):
             out.append("static %s *vp_new_%s(u64 nbytes) { __CPROVER_assert(nbytes <= VP_HEAP_MAX, \"BOUND:heap block larger than VP_HEAP_MAX\"); "
